@@ -39,6 +39,8 @@ PROPS = {
             "Replicon.C01.C01_progress_despawn",
             "Replicon.C01.C01_stable_server",
             "Replicon.C01.C01_stable_client",
+            "Replicon.C01.C01_joiner_converges",
+            "Replicon.C01.C01_joiner_values",
         ],
         "profiles": [{"name": "sys", "shards": {"thorough": 8}}, {"name": "sys_vis", "shards": {"thorough": 4}}, {"name": "sys_split", "shards": {"thorough": 4}}],
         "rule": SYS_RULE + LOCK + "For C01: oracle on the implementation: after the quiescent suffix (PERIOD+4 ticks, full in-order delivery) every authorized client's view equals the server's (same visible replicated entities, components, values; `once` components by structure); a panic of either app anywhere in the trace is a violation.",
@@ -194,6 +196,8 @@ PROPS = {
             "Replicon.C09.C09_server_forgets_client",
             "Replicon.C09.C09_server_reset",
             "Replicon.C09.C09_fresh_session",
+            "Replicon.C09.C09_new_session_round_trip",
+            "Replicon.C09.C09_server_state_is_fresh",
         ],
         "profiles": [{"name": "sys", "shards": {"thorough": 8}}, {"name": "sys_auth", "shards": {"thorough": 4}}],
         "rule": SYS_RULE + LOCK + "For C09: disconnects and server stops are injected at arbitrary points of generated histories (messages of every kind in flight, mutate messages buffered), followed by reconnects; oracle: a disconnected client's protocol state is empty in its next frame; the new session passes the C01/C02/C03 oracles; no panic.",
@@ -422,7 +426,7 @@ PROPS = {
 
 MANIFEST_TEXT = {
     "C01": {
-        "text": "Per-run halves of the convergence argument are Lean theorems about the protocol models: progress (an entity the client lacks is sent whole; a value newer than the server's belief is sent whenever its rate fires; a visible despawned entity is in DESPAWNS) and stability (nothing pending and nothing to say => the run sends nothing and changes nothing; a client frame without messages changes nothing). The induction joining them over arbitrary histories (C01_converges_partial) is NOT proved; convergence and absence of panics are checked on the implementation at the end of every generated trace, with both models in lock step (0 disagreements required).",
+        "text": "Per-run halves of the convergence argument are Lean theorems about the protocol models: progress (an entity the client lacks is sent whole; a value newer than the server's belief is sent whenever its rate fires; a visible despawned entity is in DESPAWNS) and stability (nothing pending and nothing to say => the run sends nothing and changes nothing; a client frame without messages changes nothing). Across both models: a client that joins a quiescent server holds, after one perfect round, every replicated entity with exactly the server's replicated components and values and nothing else (C01_joiner_converges, C01_joiner_values: the server model's message applied by the client model, for every server world; blacklist, no entity-valued components). The induction joining progress and stability over arbitrary histories with an already known client (C01_converges_partial) is NOT proved; convergence and absence of panics are checked on the implementation at the end of every generated trace, with both models in lock step (0 disagreements required).",
         "design_ref": "DESIGN.md §7 C01",
         "note": 'partial: the end-to-end convergence theorem is replaced by per-run theorems + oracle on the implementation + exact model correspondence. Known findings F4 (periodic) and F20 (tick-0 race) are reported, tagged by the trace checker.',
         "technique": "Lean 4 proof (per-run theorems about executable server/client protocol models) + lock-step model/implementation correspondence on real traces + property oracle on the implementation",
@@ -470,7 +474,7 @@ MANIFEST_TEXT = {
         "technique": "Lean 4 proof (per-run theorems about executable server/client protocol models) + lock-step model/implementation correspondence on real traces + property oracle on the implementation",
     },
     "C09": {
-        "text": "Lean theorems about the models: in the client's first frame after the session ended its update tick, entity map (both directions), buffered mutate messages and acknowledgements are reset whatever was delivered (C09_client_reset); the server keeps nothing of a disconnected client and nothing after stop+reset (C09_server_forgets_client, C09_server_reset); a new session starts from fresh replication state (C09_fresh_session). Absence of panics and convergence of the new session are checked on the implementation.",
+        "text": "Lean theorems about the models: in the client's first frame after the session ended its update tick, entity map (both directions), buffered mutate messages and acknowledgements are reset whatever was delivered (C09_client_reset); the server keeps nothing of a disconnected client and nothing after stop+reset (C09_server_forgets_client, C09_server_reset); a new session starts from fresh replication state (C09_fresh_session, C09_server_state_is_fresh) and converges in one perfect round whatever the old session left on the client — the server model's message for a client it has no state for, applied by the client model after its reset, yields exactly the server's view and leaves the client's other entities alone (C09_new_session_round_trip). Absence of panics and convergence of the new session are checked on the implementation.",
         "design_ref": "DESIGN.md §7 C09",
         "note": 'Known finding F13 (client panic after disconnect under the default protocol check) is reported, tagged by the trace checker. Process crashes are not a notion of this in-memory library: crash points are session cuts.',
         "technique": "Lean 4 proof (per-run theorems about executable server/client protocol models) + lock-step model/implementation correspondence on real traces + property oracle on the implementation",
